@@ -57,7 +57,7 @@ func c09(c *hx.Ctx) {
 		src.eofData = c.Rng.Intn(3) == 0
 		conn := rwc.NewConn(context.Background(), src, addr("l"), addr("r"), c.Rng.Intn(4))
 		// buffer sizes
-		big := c.Rng.Intn(3) == 0 // every buffer at least connPktSize
+		big := c.Rng.Intn(3) == 0 // every buffer larger than everything written (and >= 2048)
 		var bufs []int
 		var obs []readObs
 		ends := 0
@@ -69,6 +69,9 @@ func c09(c *hx.Ctx) {
 			bl := sizes[c.Rng.Intn(len(sizes))]
 			if big {
 				bl = 2048 + c.Rng.Intn(2)*2048
+				if bl <= n {
+					bl = n + 1
+				}
 			}
 			buf := make([]byte, bl)
 			k, err := conn.Read(buf)
@@ -167,7 +170,7 @@ func connOracle(c *hx.Ctx, data []byte, obs []readObs, ecls int, big bool, desc 
 			continue
 		}
 		if big && o.short {
-			c.Failf("short-buffer-with-big-buffer", desc, "read %d with a buffer >= connPktSize reported ErrShortBuffer", k)
+			c.Failf("short-buffer-with-big-buffer", desc, "read %d with a buffer larger than all the data written reported ErrShortBuffer", k)
 		}
 		next := map[int]bool{}
 		for p := range reach {
@@ -194,7 +197,7 @@ func connOracle(c *hx.Ctx, data []byte, obs []readObs, ecls int, big bool, desc 
 			all = append(all, o.data...)
 		}
 		if !bytes.HasPrefix(data, all) {
-			c.Failf("big-buffers-not-a-prefix", desc, "with buffers >= connPktSize the returned bytes are not a prefix of the stream")
+			c.Failf("big-buffers-not-a-prefix", desc, "with buffers larger than all the data written the returned bytes are not a prefix of the stream")
 		}
 	}
 }
